@@ -70,11 +70,25 @@ impl<T: RealNumber, M: Matrix<T>> PartialEq for PCA<T, M> {
     fn eq(&self, other: &Self) -> bool {
         if self.eigenvectors != other.eigenvectors
             || self.eigenvalues.len() != other.eigenvalues.len()
+            || self.projection != other.projection
+            || self.mu.len() != other.mu.len()
+            || self.pmu.len() != other.pmu.len()
         {
             false
         } else {
             for i in 0..self.eigenvalues.len() {
                 if (self.eigenvalues[i] - other.eigenvalues[i]).abs() > T::epsilon() {
+                    return false;
+                }
+            }
+            // the centring vectors are part of the transform
+            for i in 0..self.mu.len() {
+                if (self.mu[i] - other.mu[i]).abs() > T::epsilon() {
+                    return false;
+                }
+            }
+            for i in 0..self.pmu.len() {
+                if (self.pmu[i] - other.pmu[i]).abs() > T::epsilon() {
                     return false;
                 }
             }
